@@ -37,6 +37,7 @@ type stream struct {
 type flowGen struct {
 	cfg     flowCfg
 	start   uint32
+	off     [2]uint32 // what each reporting node adds to start: the two nodes of a flow need not see it begin in the same second
 	node    [2]stream
 	maxEnd  uint32
 	maxTot  [agg.NC]uint64
@@ -81,6 +82,9 @@ func oneHistory(c *hx.Ctx, k int, r *rand.Rand) bool {
 		}
 		cfg.corr = agg.NeedsCorrelation(cfg.flowType, cfg.egress, cfg.ingress)
 		gens[i] = &flowGen{cfg: cfg, start: uint32(1000 + r.IntN(1000))}
+		if r.IntN(2) == 0 {
+			gens[i].off = [2]uint32{uint32(r.IntN(40)), uint32(r.IntN(40))}
+		}
 	}
 	model := map[agg.Key]*agg.Flow{}
 	prev := map[agg.Key]map[string]interface{}{}
@@ -119,8 +123,12 @@ func oneHistory(c *hx.Ctx, k int, r *rand.Rand) bool {
 				}
 				end = base + 1 + uint32(r.IntN(50))
 			}
+			myStart := g.start + g.off[ni]
+			if end <= myStart {
+				end = myStart + 1 + uint32(r.IntN(5)) // every record has end > start
+			}
 			rec := agg.Rec{Key: g.cfg.key, Node: node, FlowType: g.cfg.flowType, Egress: g.cfg.egress, Ingress: g.cfg.ingress,
-				Start: g.start, End: end, EndReason: uint8(1 + r.IntN(3)), TCPState: []string{"ESTABLISHED", "TIME_WAIT", "SYN_SENT", ""}[r.IntN(4)]}
+				Start: myStart, End: end, EndReason: uint8(1 + r.IntN(3)), TCPState: []string{"ESTABLISHED", "TIME_WAIT", "SYN_SENT", ""}[r.IntN(4)]}
 			for i := 0; i < agg.NC; i++ {
 				base := st.total[i]
 				if g.cfg.coherent {
